@@ -831,7 +831,7 @@ func TestC16(t *testing.T) {
 		// when one and the same input has been in progress for stallAfter, that single call is repeated
 		// on its own; only if it again does not return within confirmAfter is it reported as a hang
 		// (these are tens of seconds for inputs of a few hundred bytes whose parse takes microseconds).
-		const stallAfter, confirmAfter = 20 * time.Second, 30 * time.Second
+		const stallAfter, confirmAfter = 20 * time.Second, time.Minute
 		start := time.Now()
 		var lastIn *[]byte
 		lastChange := time.Now()
@@ -1115,7 +1115,7 @@ func c16Commands(t *testing.T, R *ev.Run) {
 				if x != nil {
 					out[i] = append(out[i], viol{"cmd-" + name + ":panic", map[string]any{"input": ev.Trunc(fmt.Sprintf("%q", inputs[i]), 120), "input_len": len(inputs[i]), "panic": fmt.Sprint(x)}})
 				}
-			case <-time.After(30 * time.Second):
+			case <-time.After(time.Minute):
 				out[i] = append(out[i], viol{"cmd-" + name + ":does-not-return", map[string]any{"input": ev.Trunc(fmt.Sprintf("%q", inputs[i]), 120), "input_len": len(inputs[i])}})
 				return
 			}
@@ -1135,24 +1135,37 @@ func c16Commands(t *testing.T, R *ev.Run) {
 	// inputs that hold no record at all: each command runs in a child process of its own, so that a command
 	// that never returns (e.g. decoding nothing for ever) is observed - and ended - from outside
 	degenerate := []string{"", "\n", "\n\n\n", " ", "\r\n"}
-	for di, in := range degenerate {
+	type childOut struct {
+		name, so string
+		timedOut bool
+		err      error
+	}
+	// (the budget per child is a minute although a child needs milliseconds: on a starved machine a slow
+	// start must not be read as a command that does not return; the inputs run side by side)
+	couts := make([][]childOut, len(degenerate))
+	ev.Parallel(len(degenerate), len(degenerate), func(di int) {
 		f := filepath.Join(dir, fmt.Sprintf("c16cmd-degenerate-%d", di))
-		os.WriteFile(f, []byte(in), 0o644)
+		os.WriteFile(f, []byte(degenerate[di]), 0o644)
 		for _, name := range []string{"encode", "report", "plot"} {
-			ctx, cancel := context.WithTimeout(context.Background(), 15*time.Second)
+			ctx, cancel := context.WithTimeout(context.Background(), time.Minute)
 			cmd := exec.CommandContext(ctx, os.Args[0], "-test.run=^TestC16$", "-test.v")
 			cmd.Env = append(os.Environ(), "C16_CMDCHILD="+name+":"+f)
 			outb, err := cmd.CombinedOutput()
-			timedOut := ctx.Err() != nil
+			couts[di] = append(couts[di], childOut{name, string(outb), ctx.Err() != nil, err})
 			cancel()
 			os.Remove(f + ".out")
+		}
+		os.Remove(f)
+	})
+	for di, in := range degenerate {
+		for _, c := range couts[di] {
+			name, so, err := c.name, c.so, c.err
 			R.Eval(1)
 			R.Trans(1)
 			R.Part("commands", "degenerate inputs in child processes", 1)
-			so := string(outb)
 			det := map[string]any{"input": fmt.Sprintf("%q", in), "command": name}
 			switch {
-			case timedOut:
+			case c.timedOut:
 				R.Violation("cmd-"+name+":does-not-return-on-an-input-without-records", det)
 			case strings.Contains(so, "panic:") || strings.Contains(so, "fatal error"):
 				det["output"] = ev.Trunc(so, 400)
@@ -1161,7 +1174,6 @@ func c16Commands(t *testing.T, R *ev.Run) {
 				R.Cap("command child for " + name + " ended without a verdict: " + ev.Trunc(so, 200) + fmt.Sprint(err))
 			}
 		}
-		os.Remove(f)
 	}
 }
 
